@@ -1,5 +1,7 @@
 pub mod alloc;
 pub mod canary;
+#[cfg(not(miri))]
+pub mod hang;
 #[cfg(feature = "full")]
 pub mod io;
 pub mod panic;
